@@ -663,7 +663,7 @@ func ruleParserShapes(c *core.Ctx) {
 								return false
 							}
 						}
-						ok2 := core.Guarded(fn, x, core.Eq(isLen(xs), isLen(y)))
+						ok2 := core.Guarded(fn, x, core.Eq(isLen(xs), isLen(y))) || lenEqAtCallers(c, fn, xs, y)
 						c.Check(ok2, rule, key, x.Pos(), "indexed slice and ranged slice have checked equal lengths",
 							"a slice is indexed with the loop variable of a range over another slice without a check that the two have the same length: a signature with fewer names than types indexes out of range, or leaves members of the list made for them without a type (panic, then or at the first use)")
 					}
@@ -1005,6 +1005,51 @@ func isNodeBuilderOrHelper(c *core.Ctx, fn *ssa.Function, depth int) bool {
 	}
 	for _, s := range sites[fn] {
 		if !isNodeBuilderOrHelper(c, s.Parent(), depth+1) {
+			return false
+		}
+	}
+	return true
+}
+
+// lenEqAtCallers: xs and y are parameters of the private helper fn, and every
+// call site of fn is behind a comparison of the lengths of the two arguments
+// (the check stayed in the caller when the loop was extracted).
+func lenEqAtCallers(c *core.Ctx, fn *ssa.Function, xs, y ssa.Value) bool {
+	px, okx := xs.(*ssa.Parameter)
+	py, oky := y.(*ssa.Parameter)
+	if !okx || !oky || px.Parent() != fn || py.Parent() != fn || !isPrivateHelper(c, fn) {
+		return false
+	}
+	ix, iy := -1, -1
+	for i, p := range fn.Params {
+		if p == px {
+			ix = i
+		}
+		if p == py {
+			iy = i
+		}
+	}
+	sites, taken := c.CallSites()
+	if ix < 0 || iy < 0 || taken[fn] || len(sites[fn]) == 0 {
+		return false
+	}
+	lenOf := func(of ssa.Value) func(ssa.Value) bool {
+		of = core.Canon(of)
+		return func(v ssa.Value) bool {
+			lc, ok := core.Canon(v).(*ssa.Call)
+			if !ok {
+				return false
+			}
+			b, ok := lc.Call.Value.(*ssa.Builtin)
+			return ok && b.Name() == "len" && core.Canon(lc.Call.Args[0]) == of
+		}
+	}
+	for _, cs := range sites[fn] {
+		args := cs.Common().Args
+		if ix >= len(args) || iy >= len(args) {
+			return false
+		}
+		if !core.Guarded(cs.Parent(), cs.(ssa.Instruction), core.Eq(lenOf(args[ix]), lenOf(args[iy]))) {
 			return false
 		}
 	}
